@@ -30,3 +30,17 @@ pub fn list_u64(s: &str) -> Vec<u64> {
 pub fn fmt_list<T: std::fmt::Display>(v: &[T]) -> String {
     if v.is_empty() { "-".to_string() } else { v.iter().map(|x| x.to_string()).collect::<Vec<_>>().join(",") }
 }
+
+/// a reader over a byte slice that returns at most `k` bytes per `read` call, alternating with single bytes: what a socket or
+/// a pipe may do; a decoder built on `read_exact` cannot tell the difference
+pub struct FragReader<'a> { pub data: &'a [u8], pub pos: usize, pub k: usize, pub calls: usize }
+impl<'a> std::io::Read for FragReader<'a> {
+    fn read(&mut self, buf: &mut [u8]) -> std::io::Result<usize> {
+        let lim = if self.calls % 2 == 0 { self.k.max(1) } else { 1 };
+        self.calls += 1;
+        let n = buf.len().min(lim).min(self.data.len() - self.pos);
+        buf[..n].copy_from_slice(&self.data[self.pos..self.pos + n]);
+        self.pos += n;
+        Ok(n)
+    }
+}
